@@ -118,6 +118,7 @@ pub struct SimConsole {
     recs_since_progress: u64,
     /// spin guard: service-level reads at end of input since the last instruction
     eof_service_reads: u32,
+    short_handle_writes: u32,
     /// what the last fill_buf offered (consume takes a prefix of it)
     last_fill: Vec<u8>,
     /// bytes consumed through fill_buf/consume that do not yet make up a whole line, per caller
@@ -156,6 +157,7 @@ impl SimConsole {
             eof_prompt_reads: 0,
             recs_since_progress: 0,
             eof_service_reads: 0,
+            short_handle_writes: 0,
             last_fill: Vec::new(),
             pending: [Vec::new(), Vec::new()],
         }
@@ -213,6 +215,37 @@ impl Console for SimConsole {
         if let Err(e) = self.wr.write_all(text.as_bytes()) {
             panic!("failed printing to stdout: {}", e);
         }
+    }
+
+    /// `Write::write` on the stdout handle: the line writer decides how much it takes, exactly as
+    /// the real one does (everything up to the last line end, then as much of the rest as fits
+    /// its buffer); only what was taken is recorded
+    fn write(&mut self, module: &'static str, bytes: &[u8]) -> io::Result<usize> {
+        let origin = origin_of(module);
+        self.recs_since_progress += bytes.len() as u64;
+        if self.recs_since_progress > crate::world::MAX_BYTES_PER_STATEMENT {
+            std::panic::resume_unwind(Box::new(SimSpin));
+        }
+        if self.sh.borrow().events.len() > 4_000_000 {
+            self.push(Event::Fuel);
+            std::panic::resume_unwind(Box::new(SimSpin));
+        }
+        // the record goes in front of whatever the descriptor sees of it; its text is cut to
+        // what the writer took once that is known
+        let at = self.sh.borrow().events.len();
+        self.push(Event::Rec { origin, line: 0, text: String::new(), err: false });
+        let r = self.wr.write(bytes);
+        let taken = match &r {
+            Ok(n) => *n,
+            Err(_) => 0,
+        };
+        if taken < bytes.len() {
+            self.short_handle_writes += 1;
+        }
+        if let Some(Event::Rec { text, .. }) = self.sh.borrow_mut().events.get_mut(at) {
+            *text = String::from_utf8_lossy(&bytes[..taken]).into_owned();
+        }
+        r
     }
 
     fn emit_err(&mut self, module: &'static str, line: u32, text: &str) {
